@@ -19,3 +19,7 @@ mod common;
 pub use crate::config::{Committee, Parameters};
 pub use crate::consensus::Consensus;
 pub use crate::messages::{Block, QC, TC};
+#[cfg(hotstuff_verif)]
+pub use crate::consensus::{ConsensusMessage, Round};
+#[cfg(hotstuff_verif)]
+pub use crate::messages::{Timeout, Vote};
